@@ -77,4 +77,58 @@ PROPS = {
                 "spec: nothing escapes, detail only in development, pre-Recovery middleware completes, all requests on the instance answer alike.",
         "assumes": ["H1: pre-Recovery handlers call Next at most once (F16 is the recorded counter-example)"],
     },
+    "C01": {
+        "n_quick": 1500, "n_thorough": 37500,
+        "technique": 'Coq proof (soundness of the tree matcher by nested induction) + correspondence model ~ implementation ~ declarative priority spec',
+        "level_text": 'proof (partial): C01_dispatch_sound / C01_serve_sound (whatever the matcher returns is a registered path admitting the segments, for every tree, path, header predicate) and C01_regex_exact; completeness and the priority order are stated (RouteSpec.spec_winner) and checked by correspondence on every case, not yet proved',
+        "level_note": 'trusts Coq kernel, extraction, glue; Go regexp is modelled for a fragment (literals, classes, ., concatenation, alternation, greedy * + ? with non-nullable bodies, groups); regex subjects are ASCII; inner groups are non-capturing in the model',
+        "rule": 'random registration/Headers/request histories: 1-7 registrations from a collision-rich segment pool (statics incl. regex metacharacters, placeholders, regex segments with several binds / inner groups / random regex ASTs, match-all with capture 1|2|-1|3x, optional last segment, trailing slash), methods GET/other/Any/lower-case, ~8% ill-formed registrations; requests = instances of registered routes (regex parts sampled from the AST), perturbed instances, random segment strings; headers on ~10% of registrations. After a rejected registration the run continues on an instance rebuilt from the accepted operations (AddRoute is not atomic, F11). Non-trivial: a request that >= 2 derivations (routes or capture lengths) admit.',
+        "what": 'model (tree insert + match, shortcut, headers) vs ServeHTTP: accept/reject of each registration and chosen route + params of each request; spec: the chosen route equals spec_winner (flat routes x derivations, least key (fallback,rank,birth,captured) per depth)',
+        "assumes": ['Go regexp is modelled for a fragment (literals, classes, ., concatenation, alternation, greedy * + ? with non-nullable bodies, groups); regex subjects are ASCII; inner groups are non-capturing in the model'],
+    },
+    "C02": {
+        "n_quick": 1500, "n_thorough": 37500,
+        "technique": 'Coq proof (capture frame lemma over the CPS matcher) + correspondence on delivered parameter maps',
+        "level_text": 'proof: C02_regex_segment_values (binds of a regex segment get exactly the part their own expression matched in full, literals literal, parts concatenate), C02_regex_segment_accepts, C02_delivered_values (values are those of an adm derivation, decoded once)',
+        "level_note": 'trusts Coq kernel, extraction, glue; Go regexp is modelled for a fragment (literals, classes, ., concatenation, alternation, greedy * + ? with non-nullable bodies, groups); regex subjects are ASCII; inner groups are non-capturing in the model; url.PathUnescape is re-implemented (validated by the correspondence)',
+        "rule": 'random registration/Headers/request histories: 1-7 registrations from a collision-rich segment pool (statics incl. regex metacharacters, placeholders, regex segments with several binds / inner groups / random regex ASTs, match-all with capture 1|2|-1|3x, optional last segment, trailing slash), methods GET/other/Any/lower-case, ~8% ill-formed registrations; requests = instances of registered routes (regex parts sampled from the AST), perturbed instances, random segment strings; paths biased to regex segments, %-escapes valid/invalid/%2F. After a rejected registration the run continues on an instance rebuilt from the accepted operations (AddRoute is not atomic, F11). Non-trivial: the dispatched route has a regex-style segment.',
+        "what": "delivered Params() map of every dispatched request vs model; spec: the values are a capture of the chosen route's pattern (every decomposition checked with the regex semantics), decoded once, and 'route' is the canonical text",
+        "assumes": ['Go regexp is modelled for a fragment (literals, classes, ., concatenation, alternation, greedy * + ? with non-nullable bodies, groups); regex subjects are ASCII; inner groups are non-capturing in the model'],
+    },
+    "C07": {
+        "n_quick": 1500, "n_thorough": 37500,
+        "technique": 'Coq (total functional model) + hostile-input correspondence under recover()',
+        "level_text": 'proof (partial): C07_one_outcome / C07_unknown_method_not_found / C07_path_has_segments about the total model of ServeHTTP; the byte-index arithmetic of tree.go is not modelled - that no slice expression panics is observed, not proved',
+        "level_note": 'trusts Coq kernel, extraction, glue; segment-level model; Go regexp is modelled for a fragment (literals, classes, ., concatenation, alternation, greedy * + ? with non-nullable bodies, groups); regex subjects are ASCII; inner groups are non-capturing in the model',
+        "rule": 'random registration/Headers/request histories: 1-7 registrations from a collision-rich segment pool (statics incl. regex metacharacters, placeholders, regex segments with several binds / inner groups / random regex ASTs, match-all with capture 1|2|-1|3x, optional last segment, trailing slash), methods GET/other/Any/lower-case, ~8% ill-formed registrations; requests = instances of registered routes (regex parts sampled from the AST), perturbed instances, random segment strings; a third of the requests use hostile paths (empty, slash runs, arbitrary bytes, malformed %-escapes, non-UTF-8, long) and odd method tokens. After a rejected registration the run continues on an instance rebuilt from the accepted operations (AddRoute is not atomic, F11). Non-trivial: unknown method or a path with bytes outside printable ASCII.',
+        "what": 'every request served twice under recover(): no panic, exactly one chain (counter in the first middleware), same outcome; outcome vs model',
+        "assumes": ['Go regexp is modelled for a fragment (literals, classes, ., concatenation, alternation, greedy * + ? with non-nullable bodies, groups); regex subjects are ASCII; inner groups are non-capturing in the model'],
+    },
+    "C08": {
+        "n_quick": 1500, "n_thorough": 37500,
+        "technique": 'Coq model of AddRoute + declarative validity predicate + correspondence on accept/reject',
+        "level_text": "proof (partial): C08_non_final_optional_rejected / C08_empty_route_rejected; the full 'accepted iff valid' is stated (RouteSpec.valid) and checked by correspondence on every registration, not yet proved",
+        "level_note": 'trusts Coq kernel, extraction, glue; regexp.Compile is an oracle (compile : src -> option re) supplied per case',
+        "rule": 'random registration/Headers/request histories: 1-7 registrations from a collision-rich segment pool (statics incl. regex metacharacters, placeholders, regex segments with several binds / inner groups / random regex ASTs, match-all with capture 1|2|-1|3x, optional last segment, trailing slash), methods GET/other/Any/lower-case, ~8% ill-formed registrations; requests = instances of registered routes (regex parts sampled from the AST), perturbed instances, random segment strings; a third of the registrations ill-formed (each rejection cause), unknown methods. After a rejected registration the run continues on an instance rebuilt from the accepted operations (AddRoute is not atomic, F11). Non-trivial: a registration the validity spec rejects.',
+        "what": 'accept/reject of every registration vs model and vs the declarative predicate RouteSpec.valid on the list of accepted routes',
+        "assumes": ['regexp.Compile is an oracle'],
+    },
+    "C09": {
+        "n_quick": 1500, "n_thorough": 37500,
+        "technique": 'Coq proof + correspondence over Headers()/request histories',
+        "level_text": 'proof: C09_gate (a route is returned only if its constraints hold, through any leaf), C09_constrained_leaves_shortcut, C09_replace',
+        "level_note": 'trusts Coq kernel, extraction, glue; header regexes in the regex fragment, unanchored search modelled by Regex.search; header names canonical',
+        "rule": "random registration/Headers/request histories: 1-7 registrations from a collision-rich segment pool (statics incl. regex metacharacters, placeholders, regex segments with several binds / inner groups / random regex ASTs, match-all with capture 1|2|-1|3x, optional last segment, trailing slash), methods GET/other/Any/lower-case, ~8% ill-formed registrations; requests = instances of registered routes (regex parts sampled from the AST), perturbed instances, random segment strings; Headers() on a third of the routes, re-specified up to 3 times, requests with random header subsets. After a rejected registration the run continues on an instance rebuilt from the accepted operations (AddRoute is not atomic, F11). Non-trivial: some accepted route's constraints fail for a request that reaches a handler.",
+        "what": "chosen route of every request vs model; spec: the chosen route's constraints hold and it is the priority winner among routes whose constraints hold (failing ones invisible)",
+        "assumes": ['Go regexp is modelled for a fragment (literals, classes, ., concatenation, alternation, greedy * + ? with non-nullable bodies, groups); regex subjects are ASCII; inner groups are non-capturing in the model'],
+    },
+    "C10": {
+        "n_quick": 1500, "n_thorough": 37500,
+        "technique": 'Coq proof (table invariant by induction over histories) + correspondence against tree matching',
+        "level_text": 'proof (partial): C10_miss_is_tree and the table invariant (entries are registered, fully static, unconstrained routes keyed by their text) over all histories; the full serve = serve_tree needs the tree invariants of add_route and is checked by correspondence, not yet proved',
+        "level_note": 'trusts Coq kernel, extraction, glue',
+        "rule": "random registration/Headers/request histories: 1-7 registrations from a collision-rich segment pool (statics incl. regex metacharacters, placeholders, regex segments with several binds / inner groups / random regex ASTs, match-all with capture 1|2|-1|3x, optional last segment, trailing slash), methods GET/other/Any/lower-case, ~8% ill-formed registrations; requests = instances of registered routes (regex parts sampled from the AST), perturbed instances, random segment strings; static-heavy route sets, paths equal to route texts (incl. '?'), extra leading/trailing slashes. After a rejected registration the run continues on an instance rebuilt from the accepted operations (AddRoute is not atomic, F11). Non-trivial: a request answered from the shortcut table.",
+        "what": "outcome of every request vs model; spec: equals the model's full tree matching for the same method and path",
+        "assumes": [],
+    },
 }
